@@ -442,9 +442,15 @@ def run(ctx, params):
                         must_return_receiver = True
                     elif which == "unchanged":
                         n = rng.choice(list(world.decl.attrs_of(cname)))
-                        op = {"kind": "helper", "target": target, "name": f"with_{n}", "args": [["sentinel", "UNCHANGED"]], "kwargs": {}, "hkind": "with", "form": "UNCHANGED"}
+                        verb = rng.choice(["with", "update", "update_kw"])
+                        if verb == "update_kw":  # top-level update(a=UNCHANGED): nothing changes (which object comes back is not documented)
+                            op = {"kind": "helper", "target": target, "name": "update", "args": [], "kwargs": {n: ["sentinel", "UNCHANGED"]}, "hkind": "update", "form": "UNCHANGED_kw"}
+                        else:
+                            op = {"kind": "helper", "target": target, "name": f"{verb}_{n}", "args": [["sentinel", "UNCHANGED"]], "kwargs": {}, "hkind": "with" if verb == "with" else "update_attr", "form": "UNCHANGED"}
+                        if rng.random() < 0.3:
+                            op["kwargs"]["_inplace"] = True
                         st = dr.execute(world, t1, op, scopes=(), saturate=False)
-                        must_return_receiver = True
+                        must_return_receiver = verb != "update_kw"
                     else:
                         n = rng.choice(list(world.decl.attrs_of(cname)))
                         op = {"kind": "helper", "target": target, "name": "update", "args": [], "kwargs": {n: ["sentinel", "MISSING"]}, "hkind": "update", "form": "MISSING_kw"}
